@@ -701,6 +701,9 @@ TABLE = [
     ("characteristics", "adc_bit_resolution", 4, 64, True, True, 1, True, ALL),
     ("characteristics", "adc_voltage_range", "len", 2, True, True, 1, True, ALL),
     ("characteristics", "avalanche_gain", 1.0, 1000.0, True, True, 0.5, False, APD),
+    # settings without a documented range (low == "free"): every listed value is valid; what is checked is that the value
+    # arrives, reads back, and that the derived quantities follow it on every assignment path
+    ("characteristics", "pixel_reset_voltage", "free", [4.0, 5.5, 7.0], True, True, 0.5, False, APD),
 ]
 PATHS = ["ctor", "yaml", "setter", "procset", "sweep", "yaml-sweep"]
 THOROUGH_PATHS = ["yaml+setter", "yaml+procset"]      # the loaded objects changed afterwards
@@ -713,6 +716,8 @@ def table_values(row):
     if low == "len":
         vals = {0: [], 1: [1.5 + s], 2: [1.0, 5.0 + s], 3: [1.0, 2.0, 3.0 + s]}
         return [(f"len{n}", v, n == 2) for n, v in vals.items()]
+    if low == "free":
+        return [(f"v{i}", float(v) + 0.125 * s, True) for i, v in enumerate(high)]
     out = [("low-d", low - d), ("low", low), ("low+d", low + d)]
     if high is None:
         out.append(("mid", low + (5 + s) * d))
@@ -749,6 +754,31 @@ def _same_value(got, want):
     if isinstance(want, (list, tuple)):
         return isinstance(got, (list, tuple)) and len(got) == len(want) and all(_same_value(g, w) for g, w in zip(got, want))
     return isinstance(got, (int, float)) and not isinstance(got, bool) and got == want
+
+
+def _public_values(obj):
+    """{name: value} of every public readable property (exceptions are recorded by type)"""
+    out = {}
+    for name in dir(type(obj)):
+        if name.startswith("_") or not isinstance(getattr(type(obj), name, None), property):
+            continue
+        try:
+            out[name] = getattr(obj, name)
+        except Exception as e:  # noqa: BLE001
+            out[name] = f"<{type(e).__name__}>"
+    out.pop("numbytes", None)
+    return out
+
+
+def _same_loose(a, b):
+    if isinstance(a, (list, tuple)) and isinstance(b, (list, tuple)):      # the container type is not a setting
+        return len(a) == len(b) and all(_same_loose(x, y) for x, y in zip(a, b))
+    try:
+        if isinstance(a, (int, float)) and isinstance(b, (int, float)):
+            return a == b or abs(a - b) <= 1e-12 * max(abs(a), abs(b))
+        return bool(np.all(np.asarray(a == b)))
+    except Exception:  # noqa: BLE001
+        return repr(a) == repr(b)
 
 
 def run_range(case):
@@ -842,6 +872,20 @@ def run_range(case):
                     bad("refused-but-stored", label, f"value {value!r} ({label}) was refused ({err}) but the setting now "
                         f"reads {now!r} instead of the previous {base[sec][field]!r}")
         verdicts.append([label, accepted])
+        if accepted and valid and holder is not None:
+            # derived quantities: an object changed through a setter must be indistinguishable from the object rebuilt
+            # from its own stored settings (to_dict -> from_dict recomputes everything that is derived)
+            try:
+                sect = getattr(holder, sec)
+                rebuilt = type(sect).from_dict(sect.to_dict())
+                a, b = _public_values(sect), _public_values(rebuilt)
+                diff = [k for k in a if k in b and not _same_loose(a[k], b[k])]
+                if diff:
+                    bad("derived-stale", label, f"after setting {field}={value!r} the readable quantities {diff} differ "
+                        f"from those of the same settings rebuilt from scratch: "
+                        f"{ {k: (a[k], b[k]) for k in diff[:3]} }")
+            except Exception:  # noqa: BLE001  (sections without to_dict/from_dict: nothing to compare)
+                pass
         if accepted and not valid:
             bad("invalid-accepted", label, f"value {value!r} ({label}) is outside the documented range but was accepted "
                 f"(reads back {got!r})")
